@@ -96,3 +96,29 @@ def best_masks(matrix, ver, mask_used):
             sc.append(n1 + n2 + n3 + n4)
         acc.add(sc.index(min(sc)))
     return acc, [p[:3] for p in parts]
+
+
+def analyse(matrix, ver, mask_used):
+    """Returns dict(best=set of acceptable mask numbers, totals=list of scores (floor convention), tie=bool)."""
+    cands = candidates(matrix, ver, mask_used)
+    if T.is_micro(ver):
+        scores = [micro_score(m) for m in cands]
+        mx = max(scores)
+        return {'best': {scores.index(mx)}, 'totals': scores, 'tie': scores.count(mx) > 1}
+    parts = [penalty_parts(m) for m in cands]
+    acc = set()
+    totals = None
+    for conv in (0, 1):
+        sc = []
+        for (n1, n2, n3, dark, total) in parts:
+            o = sorted(n4_options(dark, total))
+            sc.append(n1 + n2 + n3 + (o[-1] if conv == 0 else o[0]))
+        if conv == 0:
+            totals = sc
+        acc.add(sc.index(min(sc)))
+    return {'best': acc, 'totals': totals, 'tie': totals.count(min(totals)) > 1, 'parts': [p[:3] for p in parts]}
+
+
+def unmasked_data(matrix, ver, mask):
+    """Encoding-region bits (placement order) after removing mask `mask`."""
+    return [matrix[i][j] ^ Lo.mask_bit(ver, mask, i, j) for (i, j) in Lo.data_positions(ver)]
